@@ -8,9 +8,10 @@
    continuation-passing style: a yield is the outcome [OSusp acc n toks k] ("blocked until more
    than n tokens are queued; toks are queued now; k is the rest of the coroutine"), and [resume]
    is the next ParseTokens call after NewInput.  Places where the Go code looks at the token
-   stream WITHOUT yielding (it sees TokenEnd at the end of a piece) are modelled as such; the
-   flag [strict] = true replaces them by yielding look-aheads (the repaired parser), so that the
-   theorems can say exactly which sites break independence of chunking.
+   stream WITHOUT yielding (it sees TokenEnd at the end of a piece) are modelled by [look]; the
+   flag [strict] = true makes them yielding look-aheads.  strict = true is parser.go AS IT IS NOW
+   (since the fix "inside a form the parser waits for the next token ..."); strict = false is the
+   parser before that fix, kept so that the theorems can say exactly which look-aheads must yield.
    Executable definitions only. *)
 From Coq Require Import ZArith List Bool.
 From ZV Require Import Model.Regex Generated.LexTables Model.Lexer.
@@ -172,13 +173,16 @@ Definition first_utf8_byte (r : Z) : Z :=
 
 (* ---- the token queue the parser reads ---- *)
 
-(* tokens lexed and not yet consumed; q_err: the lexer reported an error after them *)
-Record queue : Type := mkQ { q_toks : list token; q_err : bool }.
+(* tokens lexed and not yet consumed; q_err: the lexer reported an error after them;
+   q_instr: the runes lexed so far end inside a string or char literal (Lexer.inStringOrRune) *)
+Record queue : Type := mkQ { q_toks : list token; q_err : bool; q_instr : bool }.
 
 Inductive outcome : Type :=
 | ODone (acc : list sexp) (fuel : nat)   (* top level saw the end of the input: ParseTokens returns (acc, nil);
                                             fuel = the model's fuel for the next coroutine (that of the loop
                                             iteration of ParsingIter that saw the end) *)
+| OMoreTop (acc : list sexp) (fuel : nat) (* top level saw the end of the input inside a string / char literal:
+                                            ParseTokens returns (acc, ErrMoreInputNeeded); ParsingIter loops *)
 | OErr (acc : list sexp)                 (* ParseTokens returns (acc, hard error) *)
 | OCrash                                 (* a panic site of parser.go *)
 | OFuel                                  (* the model ran out of fuel *)
@@ -194,8 +198,8 @@ Definition need (acc : list sexp) (n : nat) (q : queue) (k : queue -> outcome) :
   else OSusp acc n (q_toks q) k.
 
 Definition tok_at (q : queue) (n : nat) : token := nth n (q_toks q) empty_token.
-Definition q_tail (q : queue) : queue := mkQ (tl (q_toks q)) (q_err q).
-Definition q_push (t : token) (q : queue) : queue := mkQ (t :: q_toks q) (q_err q).
+Definition q_tail (q : queue) : queue := mkQ (tl (q_toks q)) (q_err q) (q_instr q).
+Definition q_push (t : token) (q : queue) : queue := mkQ (t :: q_toks q) (q_err q) (q_instr q).
 Definition kind_is (t : token) (k : tkind) : bool := tkind_eqb (t_kind t) k.
 
 (* lexer.GetNextToken / PeekNextToken(0) WITHOUT a yield loop: at the end of the queue the Go code
@@ -372,7 +376,9 @@ with pinfix (f : nat) (acc : list sexp) (q : queue) (arr : list sexp) (k : sexp 
 Fixpoint ptop (f : nat) (acc : list sexp) (q : queue) : outcome :=
   match f with
   | O => OFuel
-  | S f' => pexpr f' acc true q (fun e q' => if is_send e then ODone acc f else ptop f' (acc ++ [e]) q')
+  | S f' => pexpr f' acc true q (fun e q' =>
+              if is_send e then (if q_instr q' then OMoreTop acc f else ODone acc f)
+              else ptop f' (acc ++ [e]) q')
   end.
 
 (* the next ParseTokens call after NewInput: the suspended coroutine goes on; after ODone a new
@@ -380,8 +386,9 @@ Fixpoint ptop (f : nat) (acc : list sexp) (q : queue) : outcome :=
    protocol is over *)
 Definition resume (o : outcome) (u : queue) : outcome :=
   match o with
-  | OSusp acc n toks k => need acc n (mkQ (toks ++ q_toks u) (q_err u)) k
+  | OSusp acc n toks k => need acc n (mkQ (toks ++ q_toks u) (q_err u) (q_instr u)) k
   | ODone acc f => ptop f acc u
+  | OMoreTop acc f => ptop f acc u
   | other => other
   end.
 
@@ -404,7 +411,7 @@ Definition p_init (fuel : nat) : pstate := mkP init_lstate (ODone [] fuel).
 Definition p_deliver (strict : bool) (p : pstate) (piece : list Z) : pstate :=
   let x := lex_all (ps_lex p) piece in
   let s := lres_state x in
-  mkP (set_tokens [] s) (resume strict (ps_out p) (mkQ (l_tokens s) (negb (lres_ok x)))).
+  mkP (set_tokens [] s) (resume strict (ps_out p) (mkQ (l_tokens s) (negb (lres_ok x)) (in_string_or_rune s))).
 
 Fixpoint p_deliver_all (strict : bool) (p : pstate) (pieces : list (list Z)) : pstate :=
   match pieces with
@@ -438,6 +445,7 @@ Inductive status : Type := StDone | StMore | StErr | StCrash | StFuel.
 Definition observe (o : outcome) : status * list sexp :=
   match o with
   | ODone acc _ => (StDone, acc)
+  | OMoreTop acc _ => (StMore, acc)
   | OErr acc => (StErr, acc)
   | OCrash => (StCrash, [])
   | OFuel => (StFuel, [])
@@ -445,42 +453,48 @@ Definition observe (o : outcome) : status * list sexp :=
   end.
 
 (* ---- an independent reading of "unfinished prefix": open bracket, string, raw string or
-   block comment.  A plain scanner over the runes; it shares nothing with the lexer model. ---- *)
+   block comment, or a reader prefix (% ^ ~ ~@) whose datum has not started.  A plain scanner
+   over the runes; it shares nothing with the lexer model. ---- *)
 
 Inductive smode : Type := MCode | MStr | MStrEsc | MRaw | MLine | MBlock | MBlockStar | MSlash | MRune | MRuneEsc.
 
-Definition scan_code (depth : Z) (c : Z) : smode * Z :=
-  if c =? 34 then (MStr, depth)
-  else if c =? 96 then (MRaw, depth)
-  else if c =? 39 then (MRune, depth)
-  else if c =? 47 then (MSlash, depth)
-  else if (c =? 40) || (c =? 91) || (c =? 123) then (MCode, depth + 1)
-  else if (c =? 41) || (c =? 93) || (c =? 125) then (MCode, depth - 1)
-  else (MCode, depth).
+(* scanner state: mode, bracket depth, "a reader prefix is waiting for its datum" *)
+Definition sstate : Type := (smode * Z * bool)%type.
 
-Definition scan_step (st : smode * Z) (c : Z) : smode * Z :=
-  let '(m, depth) := st in
+Definition scan_code (depth : Z) (pending : bool) (c : Z) : sstate :=
+  if c =? 34 then (MStr, depth, false)
+  else if c =? 96 then (MRaw, depth, false)
+  else if c =? 39 then (MRune, depth, false)
+  else if c =? 47 then (MSlash, depth, false)
+  else if (c =? 40) || (c =? 91) || (c =? 123) then (MCode, depth + 1, false)
+  else if (c =? 41) || (c =? 93) || (c =? 125) then (MCode, depth - 1, false)
+  else if (c =? 37) || (c =? 94) || (c =? 126) then (MCode, depth, true)
+  else if (c =? 64) || (c =? 32) || (c =? 9) || (c =? 10) || (c =? 13) then (MCode, depth, pending)
+  else (MCode, depth, false).
+
+Definition scan_step (st : sstate) (c : Z) : sstate :=
+  let '(m, depth, pending) := st in
   match m with
-  | MCode => scan_code depth c
-  | MSlash => if c =? 47 then (MLine, depth) else if c =? 42 then (MBlock, depth) else scan_code depth c
-  | MStr => if c =? 92 then (MStrEsc, depth) else if c =? 34 then (MCode, depth) else (MStr, depth)
-  | MStrEsc => (MStr, depth)
-  | MRaw => if c =? 96 then (MCode, depth) else (MRaw, depth)
-  | MLine => if c =? 10 then (MCode, depth) else (MLine, depth)
-  | MBlock => if c =? 42 then (MBlockStar, depth) else (MBlock, depth)
-  | MBlockStar => if c =? 47 then (MCode, depth) else if c =? 42 then (MBlockStar, depth) else (MBlock, depth)
-  | MRune => if c =? 92 then (MRuneEsc, depth) else if c =? 39 then (MCode, depth) else (MRune, depth)
-  | MRuneEsc => (MRune, depth)
+  | MCode => scan_code depth pending c
+  | MSlash => if c =? 47 then (MLine, depth, false) else if c =? 42 then (MBlock, depth, false) else scan_code depth false c
+  | MStr => if c =? 92 then (MStrEsc, depth, false) else if c =? 34 then (MCode, depth, false) else (MStr, depth, false)
+  | MStrEsc => (MStr, depth, false)
+  | MRaw => if c =? 96 then (MCode, depth, false) else (MRaw, depth, false)
+  | MLine => if c =? 10 then (MCode, depth, false) else (MLine, depth, false)
+  | MBlock => if c =? 42 then (MBlockStar, depth, false) else (MBlock, depth, false)
+  | MBlockStar => if c =? 47 then (MCode, depth, false) else if c =? 42 then (MBlockStar, depth, false) else (MBlock, depth, false)
+  | MRune => if c =? 92 then (MRuneEsc, depth, false) else if c =? 39 then (MCode, depth, false) else (MRune, depth, false)
+  | MRuneEsc => (MRune, depth, false)
   end.
 
-Definition scan (text : list Z) : smode * Z := fold_left scan_step text (MCode, 0).
+Definition scan (text : list Z) : sstate := fold_left scan_step text (MCode, 0, false).
 
 (* Some true: unfinished; Some false: finished; None: the scanner has no opinion
    (an unterminated rune literal, more closing than opening brackets) *)
 Definition unfinished (text : list Z) : option bool :=
-  let '(m, depth) := scan (text ++ nl) in
+  let '(m, depth, pending) := scan (text ++ nl) in
   match m with
   | MStr | MStrEsc | MRaw | MBlock | MBlockStar => Some true
   | MRune | MRuneEsc => None
-  | _ => if depth <? 0 then None else Some (0 <? depth)
+  | _ => if depth <? 0 then None else Some ((0 <? depth) || pending)
   end.
